@@ -1,7 +1,7 @@
 (* Property C10 — path addressing is exact.  Only statements and [exact]; proofs live in Proofs/KeyPath*.v, Proofs/Hier*.v. *)
 From PG Require Import Common.Tactics Model.KeyPath Model.Hier
   Proofs.KeyPathParse Proofs.KeyPathArith Proofs.KeyPathOrder
-  Proofs.KeyPathSetBase Proofs.KeyPathSetIter Proofs.KeyPathSetThm Proofs.HierTraverse.
+  Proofs.KeyPathSetBase Proofs.KeyPathSetIter Proofs.KeyPathSetThm Proofs.HierTraverse Proofs.HierFlatten.
 
 (* 1. A key path of admissible keys (integers; non-empty strings with balanced brackets) prints to a string
       that parses back to the same keys.  Any number of keys, any lengths. *)
@@ -125,3 +125,18 @@ Proof.
   rewrite (nodes_iff v [] p x). cbn [app]. tauto.
 Qed.
 Print Assumptions C10_query_sound_complete.
+
+(* 7. utils.flatten(v, flatten_complex_keys=False) and utils.canonicalize are inverse on every nested value whose dict
+      keys are distinct and admissible and that contains no dict canonicalize documents as a list
+      (flat_ok; listable = non-empty, all keys ints, keys exactly 0..n-1).  Any depth, any width, lists and dicts mixed,
+      int and string keys mixed, empty containers as leaves. *)
+Theorem C10_flatten_canonicalize : forall v, flat_ok v -> canon true (flatten false v) = inr v.
+Proof. exact canon_flatten. Qed.
+Print Assumptions C10_flatten_canonicalize.
+
+(*    The excluded dicts are exactly the ones the final pass of canonicalize converts; all their keys are ints. *)
+Theorem C10_listable_spec : forall kvs,
+  (listable kvs = false -> try_listify false kvs = PDict kvs) /\
+  (listable kvs = true -> Forall (fun kv => exists z, fst kv = KInt z) kvs).
+Proof. intros. split; [apply try_listify_keep | apply listable_needs_int_keys]. Qed.
+Print Assumptions C10_listable_spec.
